@@ -186,6 +186,8 @@ func c16ItemBytes(name string) []byte {
 }
 
 type c16Run struct {
+	points  int // quiescent points evaluated
+	sent    int // byte-stream items delivered
 	noLoop  bool // the preface was not (completely) sent: the serve loop proper has not started
 	w       *vx.W
 	s       *c15srv
@@ -225,6 +227,7 @@ func (r *c16Run) tail() string {
 // responsiveness and the white-box bounds.
 func (r *c16Run) check(where string) {
 	s := r.s
+	r.points++
 	for _, p := range s.panicList() {
 		site, _, _ := strings.Cut(p, ":")
 		r.fail("server-panic/"+site, "the serve goroutine panicked (%s): %s; server output:%s", where, p, r.tail())
@@ -311,10 +314,15 @@ func c16Exec(t testing.TB, w *vx.W, cs c16Case) {
 	defer s.finish()
 	defer close(release)
 	r := &c16Run{w: w, s: s}
+	defer func() {
+		w.Ctx().AddTransitions(int64(r.sent))
+		w.Ctx().AddStates(int64(r.points))
+	}()
 
 	var all []byte
 	aligned := true
 	send := func(b []byte) {
+		r.sent++
 		if cs.Burst {
 			all = append(all, b...)
 			return
@@ -497,6 +505,7 @@ func c16Classify(w *vx.W, r *c16Run, outcome string) {
 		return
 	}
 	w.Nontrivial()
+	w.Ctx().AddTraces(1)
 	s := r.s
 	s.mu.Lock()
 	h := len(s.enters) > 0
